@@ -65,6 +65,15 @@ func newStringExtractor(position stringExtractorPosition, patternParts []string,
 			return emptyExtractor, fmt.Errorf("patternParts[1]: %w", err)
 		}
 	}
+	if validCharTable == nil {
+		// the end of a "*" target can only be found by the boundary on the far side
+		if position == extractFromStart && len(rightBoundary) == 0 {
+			return emptyExtractor, fmt.Errorf("wildcard '*' at the end of the pattern needs a right boundary")
+		}
+		if position == extractFromEnd && len(leftBoundary) == 0 {
+			return emptyExtractor, fmt.Errorf("wildcard '*' at the start of the pattern needs a left boundary")
+		}
+	}
 	return stringExtractor{
 		position:   position,
 		leftBound:  leftBoundary,
@@ -147,7 +156,7 @@ func fillValidCharsByRangeExpression(table []bool, expression string) error {
 			}
 		} else {
 			if rangeStarted {
-				for rc := expr[i-2]; rc <= c; rc++ {
+				for rc := int(expr[i-2]); rc <= int(c); rc++ { // int: a range ending at byte 0xFF must not wrap around
 					table[rc] = listedValue
 				}
 				rangeStarted = false
